@@ -7,7 +7,8 @@ proof   : Props/C34.v (Proof/Ray.v) about Model/Ray.v (kernels _ray / _ray_bvh) 
 tie     : T (bin/translate.py) + T-validation of every translated ray function; kernel-level
           correspondence: the model `ray_kernel` over the translated `_ray_geom_mesh`, run inside Coq
           on the arrays of random scenes, against mjw.rays (brute-force and BVH kernels).
-oracle  : mjw.ray / mjw.rays vs mujoco.mj_ray (distance, geom id, normal) on random scenes of every geom
+oracle  : structured (piecewise-planar) height fields: dense rays from above, brute == mj_ray and BVH == brute;
+          mjw.ray / mjw.rays vs mujoco.mj_ray (distance, geom id, normal) on random scenes of every geom
           type, group masks, flg_static, bodyexclude, two worlds; BVH path vs brute-force path; directed
           probes of the recorded defects."""
 
@@ -22,7 +23,7 @@ import propkit
 import vlib
 
 MANIFEST = {
-  "text": "proof: over R. (1) nearest_fold: the Gallina copy of kernel _ray's running minimum (init MJ_MAXVAL/-1, negative distance -> MJ_MAXVAL, strict `<` update, -1 iff nothing below MJ_MAXVAL) returns, for geom lists of any length, the minimum distance among geoms with 0 <= d < 1e10 and the LOWEST geom id attaining it, (-1,-1,0) if none; the result is independent of the block size (tile_argmin = first minimum); _ray_bvh's / cast_ray's rule returns the same minimum for any visiting order; the triple equals mj_ray's rule when no distance reaches 1e10. (2) eliminate_rule on the translated _ray_eliminate = the property's sentence. (3) the kernel model over the translated _ray_geom_mesh returns the nearest non-eliminated hit. (4) translated _ray_quad / ray_sphere / ray_plane: returned x >= 0 lies on the surface, is the smallest non-negative root, normal is the outward unit normal / plane normal; -1 only below the 1e-15 discriminant threshold or without a root. (5) bvh_equals_brute_partial: abstract tree traversal that prunes only boxes missed or entered no nearer than the current best returns the brute-force minimum (Warp's BVH builtins are not in /repo: abstract model). (6) _ray_bvh's primitive->geom map with the per-world stride ngeom+nflexgeom (repaired in /repo ae9ede3) denotes exactly the enabled geoms in every world; _orthogonal_basis of the normalised direction (repaired in 8617230) is an orthonormal pair orthogonal to any non-zero direction; ray_ellipsoid in the local frame (partial). tested only: float32 rounding; ray_capsule/cylinder/box/mesh/hfield geometry (no closed-form theorem: T-validation + mj_ray oracle, including rays that START INSIDE every closed geom type -- capsule cylindrical section and cap regions, cylinder, box, ellipsoid, sphere, cube/octahedron meshes -- and leave through every face / cap); that the real scene-BVH boxes cover the geoms (BVH-vs-brute oracle: open recorded defects for hfield, infinite planes, mesh back faces, geom groups)",
+  "text": "proof: over R. (1) nearest_fold: the Gallina copy of kernel _ray's running minimum (init MJ_MAXVAL/-1, negative distance -> MJ_MAXVAL, strict `<` update, -1 iff nothing below MJ_MAXVAL) returns, for geom lists of any length, the minimum distance among geoms with 0 <= d < 1e10 and the LOWEST geom id attaining it, (-1,-1,0) if none; the result is independent of the block size (tile_argmin = first minimum); _ray_bvh's / cast_ray's rule returns the same minimum for any visiting order; the triple equals mj_ray's rule when no distance reaches 1e10. (2) eliminate_rule on the translated _ray_eliminate = the property's sentence. (3) the kernel model over the translated _ray_geom_mesh returns the nearest non-eliminated hit. (4) translated _ray_quad / ray_sphere / ray_plane: returned x >= 0 lies on the surface, is the smallest non-negative root, normal is the outward unit normal / plane normal; -1 only below the 1e-15 discriminant threshold or without a root. (5) bvh_equals_brute_partial: abstract tree traversal that prunes only boxes missed or entered no nearer than the current best returns the brute-force minimum (Warp's BVH builtins are not in /repo: abstract model). (6) _ray_bvh's primitive->geom map with the per-world stride ngeom+nflexgeom (repaired in /repo ae9ede3) denotes exactly the enabled geoms in every world; _orthogonal_basis of the normalised direction (repaired in 8617230) is an orthonormal pair orthogonal to any non-zero direction; ray_ellipsoid in the local frame (partial). (7) hfield BVH mesh: merging a rectangle of cells that all pass fits_plane (planar, corner on the start plane, same slopes; exact-arithmetic hand model of the host function bvh._optimize_hfield_mesh) is exact at every grid node, and the slope test cannot be dropped (witness); the real function is run on generated piecewise-planar terrains every check and its mesh must lie on the elevation surface at every node and triangle centroid. tested only: float32 rounding; ray_capsule/cylinder/box/mesh/hfield geometry (no closed-form theorem: T-validation + mj_ray oracle, including rays that START INSIDE every closed geom type -- capsule cylindrical section and cap regions, cylinder, box, ellipsoid, sphere, cube/octahedron meshes -- and leave through every face / cap); that the real scene-BVH boxes cover the geoms (BVH-vs-brute oracle: open recorded defects for hfield, infinite planes, mesh back faces, geom groups)",
   "note": "trusted: Coq kernel; translator bin/translate.py (validated each run against the compiled Warp functions); Model/Ray.v hand model of the two kernels (validated each run against mjw.rays on random scenes inside Coq); tile_argmin modelled as first-minimum (CPU block size is 1); real-number axioms of Coq's Reals; mujoco.mj_ray as the differential oracle",
   "technique": "Rocq proof over hand model + functions machine-translated from the source (T), translation validation, kernel correspondence inside Coq, differential oracle against MuJoCo and BVH-vs-brute-force oracle",
   "engine": "coq",
@@ -474,12 +475,21 @@ def oracle_bvh(res, nscenes, nrays):
   for s in range(nscenes):
     xml = G.scene(rng, types=G.PRIMS + ("mesh",), plane_infinite=0.3, meshes=("cube", "octa", "pyr"))
     m, ds, mm, dd = build(xml, rng)
-    rc = mjw.create_render_context(m, nworld=2, cam_res=(2, 2), enabled_geom_groups=[0, 1, 2, 3, 4, 5])
+    # every other scene: a render context restricted to some geom groups (enabled_geom_ids is then NOT the
+    # identity map) and the same groups as the rays' geomgroup mask, so that both paths see the same geoms
+    groups = [0, 1, 2, 3, 4, 5]
+    if s % 2:
+      present = sorted({int(g) for g in m.geom_group})
+      k = int(rng.integers(1, len(present) + 1))
+      groups = sorted(int(g) for g in rng.choice(present, k, replace=False))
+    rc = mjw.create_render_context(m, nworld=2, cam_res=(2, 2), enabled_geom_groups=groups)
     mjw.refit_bvh(mm, dd, rc)
     pnt, vec = G.random_rays(rng, 2 * nrays, centers=ds[0].geom_xpos)
     pnt, vec = pnt.reshape(2, nrays, 3), vec.reshape(2, nrays, 3)
     kin = put_inside(rng, m, ds, pnt, vec, 0.25)
     gg = [-1] * 6 if rng.random() < 0.4 else rng.integers(0, 2, 6).tolist()
+    if s % 2:
+      gg = [1 if g in groups else 0 for g in range(6)]
     flg_static = bool(rng.random() < 0.6)
     bex = rng.integers(-1, m.nbody, nrays)
     bex[-kin:] = -1
@@ -504,6 +514,77 @@ def oracle_bvh(res, nscenes, nrays):
   res.count(ncmp)
   res.extra["oracle_bvh"] = {"rays": ncmp, "discarded_near_discontinuity": ndisc, "disagree": len(fails)}
   return fails
+
+
+# ---------------------------------------------------------------- oracle 3: structured height fields, top surface
+def hfield_mesh_check(m, hid=0):
+  """direct model of the host-side hfield mesher: the triangle mesh bvh.build_hfield_bvh hands to Warp (greedy
+  merge of coplanar cells, bvh._optimize_hfield_mesh) must be the height field's own surface: every grid node and
+  every original triangle's centroid lies on the mesh at its original height (a merge is exact) and is covered."""
+  import mujoco_warp._src.bvh as B
+
+  hmesh, _ = B.build_hfield_bvh(m, hid)
+  nr, nc = int(m.hfield_nrow[hid]), int(m.hfield_ncol[hid])
+  adr = int(m.hfield_adr[hid])
+  sz = m.hfield_size[hid]
+  data = m.hfield_data[adr : adr + nr * nc]
+  bad = G.hfield_mesh_exact(hmesh.points.numpy(), hmesh.indices.numpy(), data, nr, nc, float(sz[0]), float(sz[1]), float(sz[2]))
+  return bad, len(hmesh.indices.numpy()) // 3, 2 * (nr - 1) * (nc - 1)
+
+
+def oracle_hfield(res, nscenes, max_n=8):
+  """piecewise-planar terrains (flat / ramp / plateau / stairs / ridges / diagonals / constant rows / bumps) of
+  several nrow x ncol sizes, tilted; a dense grid of rays from above at several angles onto the TOP surface
+  (base box and side walls are the open finding C34:bvh:hfield-base-and-sides-missing); nworld 1-2:
+  brute force == mj_ray and BVH path == brute force, distance, geom id and normal; plus the mesh-exactness model."""
+  import mujoco_warp as mjw
+
+  rng = np.random.default_rng(vlib.seed() + 3405)
+  fails, meshbad, ncmp, ndisc, nmerged, nhit = [], [], 0, 0, 0, 0
+  kinds = {}
+  for s in range(nscenes):
+    nr, nc = int(rng.integers(2, max_n + 1)), int(rng.integers(2, max_n + 2))
+    kind = G.TERRAINS[s % len(G.TERRAINS)]
+    xml, kind = G.terrain_scene(rng, nr, nc, kind)
+    nworld = 1 + s % 2
+    m, ds, mm, dd = build(xml, rng, nworld=nworld)
+    bad, ntri, nfull = hfield_mesh_check(m)
+    nmerged += ntri < nfull
+    kinds[kind] = kinds.get(kind, 0) + 1
+    if bad:
+      meshbad.append(dict(xml=xml, kind=kind, nrow=nr, ncol=nc, triangles=ntri, discrepancies=bad[:4], qpos=ds[0].qpos.tolist()))
+    rc = mjw.create_render_context(m, nworld=nworld, cam_res=(2, 2), enabled_geom_groups=[0, 1, 2, 3, 4, 5])
+    mjw.refit_bvh(mm, dd, rc)
+    pnt, vec = G.rays_from_above(rng, m, ds[0], 0, min(3 * (nc - 1), 14), min(3 * (nr - 1), 12))
+    nray = len(pnt)
+    P, V = pnt[None], vec[None]  # shared by the worlds
+    bex = np.full(nray, -1)
+    a = cast(mm, dd, P, V, [-1] * 6, True, bex)
+    b = cast(mm, dd, P, V, [-1] * 6, True, bex, rc)
+    for w in range(nworld):
+      for r in range(nray):
+        x, g, n = mj_cast(m, ds[w], pnt[r], vec[r], [-1] * 6, True, -1)
+        ncmp += 1
+        nhit += g == 0
+        ok1 = same_hit(x, g, n, a[0][w, r], a[1][w, r], a[2][w, r], rtol=3e-4, ntol=3e-3)
+        ok2 = same_hit(a[0][w, r], a[1][w, r], a[2][w, r], b[0][w, r], b[1][w, r], b[2][w, r], rtol=3e-4, ntol=3e-3)
+        if ok1 and ok2:
+          res.nontrivial(("hf", s, w, r))
+          continue
+        # a crease between two facets / the silhouette of another geom: normal or geom flips under a tiny perturbation
+        wrong = (b if ok1 else a)
+        if unstable(m, ds[w], pnt[r], vec[r], [-1] * 6, True, -1, wrong[0][w, r], wrong[1][w, r], wrong[2][w, r], rng, eps=3e-4):
+          ndisc += 1
+          continue
+        fails.append(dict(xml=xml, qpos=ds[w].qpos.tolist(), world=w, pnt=pnt[r].tolist(), vec=vec[r].tolist(), geomgroup=[-1] * 6, flg_static=True, bodyexclude=-1,
+                          terrain=kind, nrow=nr, ncol=nc, which="brute-vs-mj_ray" if not ok1 else "bvh-vs-brute", mujoco=[x, g] + n.tolist(),
+                          brute=[float(a[0][w, r]), int(a[1][w, r])] + a[2][w, r].tolist(), bvh=[float(b[0][w, r]), int(b[1][w, r])] + b[2][w, r].tolist()))  # fmt: skip
+    if s == 0:
+      res.sample({"kind": "oracle structured height field (top surface)", "terrain": kind, "nrow": nr, "ncol": nc, "rays": nray, "nworld": nworld, "mesh_triangles": [ntri, nfull]})
+  res.count(ncmp)
+  res.extra["oracle_hfield"] = {"scenes": nscenes, "terrains": kinds, "scenes_with_merged_cells": int(nmerged), "rays": ncmp, "hfield_hits": int(nhit),
+                                "discarded_near_crease": ndisc, "disagree": len(fails), "mesh_not_exact": len(meshbad)}  # fmt: skip
+  return fails, meshbad
 
 
 # ---------------------------------------------------------------- directed probes of recorded defects
@@ -685,6 +766,18 @@ def run(res):
     if key not in seen:
       seen.add(key)
       res.violation(key, f"BVH path {f['bvh'][:2]} vs brute-force path {f['brute'][:2]} on {f['geom_types']}", f)
+  f5, meshbad = oracle_hfield(res, 12 if quick else 96)
+  res.obligation("hfield BVH mesh (bvh._optimize_hfield_mesh via build_hfield_bvh) lies exactly on the elevation surface, on generated piecewise-planar terrains",
+                 not meshbad, f"{len(meshbad)} terrains with discrepancies")  # fmt: skip
+  for mb in meshbad[:1]:
+    found = True
+    res.violation("C34:bvh:hfield-mesh-not-on-elevation-surface", f"the triangle mesh built for the BVH ray path merges cells of a {mb['nrow']}x{mb['ncol']} '{mb['kind']}' terrain into triangles that leave the height field's surface: {mb['discrepancies'][0]}", mb)
+  for f in f5:
+    key = "C34:oracle:hfield-top-surface:" + f["which"]
+    found = True
+    if key not in seen:
+      seen.add(key)
+      res.violation(key, f"structured height field ({f['terrain']} {f['nrow']}x{f['ncol']}), ray onto the top surface: mj_ray {f['mujoco'][:2]}, brute force {f['brute'][:2]}, BVH path {f['bvh'][:2]}", f)
   lap("oracles")
   pr = probes(res)
   lap("probes")
